@@ -28,6 +28,12 @@ open Irismod Irismod.Sdk Irismod.Token Irismod.Props.C10
 #print axioms boundinv_step
 #print axioms boundinv_genesis
 #print axioms boundinv_run
+#print axioms upgrade_only_authority
+#print axioms upgrade_by_stranger_rejected
+#print axioms upgrade_changes_no_ledger
+#print axioms upgrade_without_code_rejected
+#print axioms impl_changes_only_by_upgrade
+#print axioms legacy_leaves_erc20_untouched
 -- non-vacuity: a token is issued, bound to a contract, converted to ERC20 and back (message and hook),
 -- a misbehaving contract makes the conversion fail, and a registered fee-token swap at ratio 1 is exact
 def demoEnv : Env := { blocked := ["FC"], registry := [("uabc", ("wei", ⟨1000000000000000000⟩))] }
@@ -37,6 +43,11 @@ def demoOps : List Op :=
   [.issue "A0" "abc" "n1" "uabc" 6 5 0 true, .issue "A0" "eth" "n2" "wei" 18 0 0 true,
    .deploy "GOV" "erc" "abc" "uabc" 6, .swapToErc20 "A0" "E1" "uabc" 3000001, .swapToErc20 "A0" "A1" "uabc" 7,
    .swapFromErc20 "A1" "A2" "uabc" 5, .hookSwap "E1" 1 "A3" 1, .swapFee "A0" "" "uabc" 1000000,
-   .evmTx (.u 0) [{ emitter := .u 1, src := "E1", rcv := "A3", amount := 77 }, { emitter := .k 1, src := "E1", rcv := "A3", amount := 2 }]]
+   .evmTx (.u 0) [{ emitter := .u 1, src := "E1", rcv := "A3", amount := 77 }, { emitter := .k 1, src := "E1", rcv := "A3", amount := 2 }],
+   .upgradeErc20 "A0" "I1", .upgradeErc20 "GOV" "E1", .upgradeErc20 "GOV" "K2", .upgradeErc20 "GOV" "I2", .upgradeErc20 "GOV" "K1",
+   .legacyBurn "A2" "abc" 0, .legacyMint "A0" "A2" "abc" 1]
 def demo : State := run demo0 demoOps
-#eval s!"nonvacuous {supplyOf demo "uabc" == 5000000 - 3000001 - 7 + 5 + 1 - 1000000 + 2 && Spec.C10.evmTotal demo 1 == 3000001 + 7 - 5 - 1 - 2 && balOf demo "A2" "uabc" == 5 && balOf demo "A3" "uabc" == 3 && balOf demo "A0" "wei" == 1000000000000000000 && (step { demo with fault := "mint_noop" } (.swapToErc20 "A0" "E1" "uabc" 1)).toOption.isNone && (step demo (.swapToErc20 "A0" "E1" "uabc" 1)).toOption.isSome && lossLess 1234567 ⟨1000000000000000000⟩ 6 2 == some (1230000, 123)}"
+-- (the upgrades: a stranger, an address without code and a contract that does not exist are rejected; I2 and then
+-- the existing contract K1 are accepted and change nothing but the implementation; the legacy mint of 1 main unit
+-- credits 10^6 min units and leaves the ERC20 ledger alone)
+#eval s!"nonvacuous {demo.impl == "K1" && (run demo0 (demoOps.take 12)).impl == "I0" && (run demo0 (demoOps.take 13)).impl == "I2" && balOf demo "A2" "uabc" == 5 + 1000000 && supplyOf demo "uabc" == 5000000 - 3000001 - 7 + 5 + 1 - 1000000 + 2 + 1000000 && Spec.C10.evmTotal demo 1 == 3000001 + 7 - 5 - 1 - 2 && balOf demo "A3" "uabc" == 3 && balOf demo "A0" "wei" == 1000000000000000000 && (step { demo with fault := "mint_noop" } (.swapToErc20 "A0" "E1" "uabc" 1)).toOption.isNone && (step demo (.swapToErc20 "A0" "E1" "uabc" 1)).toOption.isSome && lossLess 1234567 ⟨1000000000000000000⟩ 6 2 == some (1230000, 123)}"
